@@ -601,7 +601,117 @@ def run_object_default_members(w) -> None:
         loaded.unload()
 
 
+ASSIGNED_OVERRIDES_SOURCE = '''
+import icontract
+
+
+class A(icontract.DBC):
+    @icontract.require(lambda x: x > 0)
+    @icontract.ensure(lambda result: result < 100)
+    def plain(self, x):
+        return x
+
+    @icontract.require(lambda x: x > 0)
+    def weakened(self, x):
+        return x
+
+    def unconstrained(self, x):
+        return x
+
+    @property
+    @icontract.ensure(lambda result: result >= 0)
+    def prop(self):
+        return 1
+
+
+def _plain_impl(self, x):
+    return x * 50
+
+
+@icontract.require(lambda x: x < -10)
+def _weakened_impl(self, x):
+    return x
+
+
+def _prop_getter(self):
+    return -1
+
+
+def make_impl():
+    def impl(self, x):
+        return x * 50
+    return impl
+
+
+class Assigned(A):
+    """Overrides given as functions that were defined outside the class body: they are overrides like any other."""
+    plain = _plain_impl
+    weakened = _weakened_impl
+    prop = property(_prop_getter)
+
+
+class FromFactory(A):
+    plain = make_impl()
+
+
+class FromLambda(A):
+    plain = lambda self, x: x * 50  # noqa: E731
+
+
+try:
+    class Strengthening(A):
+        unconstrained = _weakened_impl
+except TypeError as err:
+    STRENGTHENING = "TypeError"
+else:
+    STRENGTHENING = "accepted"
+'''
+
+
+def run_assigned_overrides(w) -> None:
+    """An overriding member which is a function defined OUTSIDE the class body (at module level, by a factory, a lambda) and assigned in
+    it inherits the contracts of the ancestors like an override written in the body."""
+    import icontract  # pylint: disable=import-outside-toplevel
+
+    loaded = prog.load_source(ASSIGNED_OVERRIDES_SOURCE, w.scratch())
+    mod = loaded.module
+    try:
+        for tag, call, want in (
+                ("Assigned.plain(-1): inherited precondition", lambda: mod.Assigned().plain(-1), "violation"),
+                ("Assigned.plain(7): inherited postcondition", lambda: mod.Assigned().plain(7), "violation"),
+                ("Assigned.plain(1)", lambda: mod.Assigned().plain(1), "returned"),
+                ("Assigned.weakened(5): the group of the base admits it", lambda: mod.Assigned().weakened(5), "returned"),
+                ("Assigned.weakened(-20): the own group admits it", lambda: mod.Assigned().weakened(-20), "returned"),
+                ("Assigned.weakened(-5): no group admits it", lambda: mod.Assigned().weakened(-5), "violation"),
+                ("Assigned.prop: inherited postcondition of the getter", lambda: mod.Assigned().prop, "violation"),
+                ("FromFactory.plain(7)", lambda: mod.FromFactory().plain(7), "violation"),
+                ("FromFactory.plain(-1)", lambda: mod.FromFactory().plain(-1), "violation"),
+                ("FromLambda.plain(7)", lambda: mod.FromLambda().plain(7), "violation"),
+                ("FromLambda.plain(1)", lambda: mod.FromLambda().plain(1), "returned")):
+            try:
+                call()
+                got = "returned"
+            except icontract.ViolationError:
+                got = "violation"
+            except BaseException as err:  # pylint: disable=broad-except
+                got = "raised {}: {}".format(type(err).__name__, str(err)[:100])
+            w.count("calls")
+            w.count("assigned_override_calls")
+            w.case(("assigned-override", tag))
+            if got != want:
+                w.violation("C04/override-assigned-in-the-class-body-does-not-inherit", "{}: {} (expected {})".format(tag, got, want),
+                            {"assigned_overrides": tag})
+        w.count("calls")
+        if mod.STRENGTHENING != "TypeError":
+            w.violation("C04/override-assigned-in-the-class-body-does-not-inherit", "a class whose assigned override adds a precondition over an ancestor "
+                        "without any was {} (expected TypeError at class creation)".format(mod.STRENGTHENING), {"assigned_overrides": "strengthening"})
+    finally:
+        loaded.unload()
+
+
 def run(w) -> None:
+    if w.shard == 4 % w.nshards:
+        run_assigned_overrides(w)
     if w.shard == 3 % w.nshards:
         run_object_default_members(w)
     if w.shard == 1 % w.nshards:
@@ -620,6 +730,9 @@ def replay(case, w) -> None:
         return
     if "rebound" in case:
         run_rebound_ancestor_member(w)
+        return
+    if "assigned_overrides" in case:
+        run_assigned_overrides(w)
         return
     if "object_defaults" in case:
         run_object_default_members(w)
